@@ -369,10 +369,33 @@ def r08_13(run, model):
                    "Go gets `apply_once(c__4, 4)` with c__4 of struct type closure_env_c_0 for a `func(int32) int32` parameter")
 
 
+def r08_14(run, model):
+    run.rule("R08.14", "a function used as a value stays in the output: the reachability walk of Go DCE (collect_called_in_expr) records a "
+                       "function name wherever a variable mentions it, not only in callee position - a top-level function that is only "
+                       "let-bound, passed or stored must not be pruned while its uses stay")
+    DCE = "crates/compiler/src/go/dce.rs"
+    f = model.fn("collect_called_in_expr", DCE)
+    ms = list(S.find(f.body, "Match"))
+    if not ms:
+        raise AnalysisIncomplete("collect_called_in_expr: match not found")
+    arm = None
+    for a in ms[0]["arms"]:
+        heads = [S.pat_head(x) for x in S.pat_alts(a["pat"])]
+        if any(h[0] == "variant" and h[1][-1] == "Var" for h in heads):
+            arm = a
+    if arm is None:
+        raise AnalysisIncomplete("collect_called_in_expr: no arm for Expr::Var")
+    records = any(c["k"] == "MethodCall" and c["method"] == "insert" for c in S.walk(arm["body"]))
+    run.ob("R08.14", "collect_called_in_expr|every mention of a function name keeps the function", records, site(DCE, arm["sp"]),
+           "the Var arm records the name" if records else "the Var arm is a leaf: only callees are recorded",
+           witness="fn triple(x: int32) -> int32 { x * 3 } fn main() { let f = triple; .. f(2) }: `triple` is pruned as unreachable, Go: undefined: triple")
+
+
 def run(run, model):
     run.try_rule(r08_10, model)
     run.try_rule(r08_12, model)
     run.try_rule(r08_13, model)
+    run.try_rule(r08_14, model)
     from rules import c19
     run.rule("R08.9", "captured variables get distinct environment fields (shared with C19 R19.6)")
     run.try_rule(c19.r19_6, model)
